@@ -71,10 +71,22 @@ static INVARIANT_FIRST: [AtomicU8; 192] = {
     [Z; 192]
 };
 
+/// Whether evaluations are counted (off by default: a shared counter is a
+/// contention point when many threads sweep a domain).
+static INVARIANT_COUNTING: core::sync::atomic::AtomicBool =
+    core::sync::atomic::AtomicBool::new(false);
+
+/// Enables or disables counting of `invariant!()` evaluations.
+pub fn invariant_count_evaluations(enable: bool) {
+    INVARIANT_COUNTING.store(enable, Ordering::SeqCst);
+}
+
 /// Called by `invariant!()` on each evaluation when the hooks are enabled.
 #[inline(always)]
 pub fn invariant_evaluated() {
-    INVARIANT_EVALUATIONS.fetch_add(1, Ordering::Relaxed);
+    if INVARIANT_COUNTING.load(Ordering::Relaxed) {
+        INVARIANT_EVALUATIONS.fetch_add(1, Ordering::Relaxed);
+    }
 }
 
 /// Called by `invariant!()` instead of the configured behavior
